@@ -176,7 +176,42 @@ def convert_disc(s, rng):
     return {"cfg": fwd_scripts._cfg(rng, 3), "ops": ops}
 
 
-MODEL_CONVERTERS = {"BatchOpen": convert_batch, "StaleReconcile": convert_stale, "MonBroadcast": convert_monb, "DisComplete": convert_disc}
+
+def convert_gossip(s, rng):
+    """Behaviour of GossipStatus.tla (D = 3, E = 2) -> channet script on a line 0 - 1 - 2, observed node 1, judged
+    channel 1-2 (the link 0-1 stays up so that node 1 has somebody to tell): a model tick while the channel is not live
+    stands for 4 timer ticks (3 model ticks >= DISABLE_GOSSIP_TICKS + 1, 2 stay below), one while it is live for 3
+    (2 model ticks >= ENABLE_GOSSIP_TICKS + 1, 1 stays below); node 1 is written and re-read where TLC says; a long
+    tail of ticks in the final liveness lets the observer judge the announcement."""
+    import fwd_scripts
+    x, y = 1, rng.choice([0, 2])          # y: the peer whose channel is judged
+    z = 2 - y
+    a, b = min(x, y), max(x, y)
+    ops, live, npay = [], True, 0
+    if rng.random() < 0.4:
+        ops += [{"op": "send", "from": rng.choice([0, 2]), "to": 1, "amt": "big"}, {"op": "deliver_all"}]
+        npay = 1
+    for st in s["steps"]:
+        if st == "disconnect":
+            ops.append({"op": "disconnect", "a": a, "b": b}); live = False
+        elif st == "reconnect":
+            ops += [{"op": "reconnect", "a": a, "b": b}, {"op": "deliver_all"}]; live = True
+        elif st == "reload":
+            ops += [{"op": "reload", "node": x}, {"op": "reconnect", "a": min(x, z), "b": max(x, z)}, {"op": "deliver_all"}]; live = False
+        else:
+            ops += [{"op": "tick", "node": x}] * (3 if live else 4) + [{"op": "deliver_all"}]
+    if rng.random() < 0.5 and not live:
+        ops += [{"op": "reconnect", "a": a, "b": b}, {"op": "deliver_all"}]; live = True
+    for _ in range(17):
+        ops += [{"op": "tick", "node": x}, {"op": "deliver_all"}]
+    ops += [{"op": "reconnect", "a": 0, "b": 1}, {"op": "reconnect", "a": 1, "b": 2}, {"op": "deliver_all"}]
+    for k in range(npay):
+        ops += [{"op": "claim", "pay": k}, {"op": "deliver_all"}]
+    ops += [{"op": "deliver_all"}, {"op": "proj", "final": True}]
+    return {"cfg": fwd_scripts._cfg(rng, 3), "ops": ops}
+
+
+MODEL_CONVERTERS = {"GossipStatus": convert_gossip, "BatchOpen": convert_batch, "StaleReconcile": convert_stale, "MonBroadcast": convert_monb, "DisComplete": convert_disc}
 # (each behaviour of these small models is run in several concrete variations)
 MODEL_REPEAT = {"MonBroadcast": 6, "StaleReconcile": 2, "DisComplete": 3}
 
